@@ -21,7 +21,9 @@ RULE = (
     "kind (plain, masked with fixed mask, masked flexible); the slot-kind x payload x limit product is "
     "enumerated completely with 4 fixed histories each and histories are also drawn by Hypothesis. Oracle: "
     "identical (time, values, mask, units) series; every file appears below the configured location only; "
-    "location empty after finalize. A composition-level part repeats this through fm.Composition. "
+    "location empty after finalize. A composition-level part repeats this through fm.Composition. static_enum: a static "
+    "output (one publication without time) x payload kind x limit x optional pass-through adapter x 1-3 consumers with 0-4 "
+    "pulls each: every pull equals the publication, nothing outside the location, nothing left after finalize. "
     "non-trivial = at least one entry spilled and one kept in RAM in the same run, or limit 0. distinct = JSON."
 )
 ASSUMPTIONS = [
@@ -491,8 +493,78 @@ comp_st = st.fixed_dictionaries({
 })
 
 
+# ------------------------------------------------------------------ static outputs (one data set, no time)
+def check_static(case, ctx):
+    """a static output (one publication without a time, e.g. a parameter field) behind an optional pass-through adapter,
+    1-3 consumers, 0-4 pulls each, with a memory limit: every pull equals the publication, the file lies in the
+    configured location while the output lives, and nothing remains after finalize."""
+    import finam as fm
+
+    pk, lim, n = case["payload"], case["limit"], case.get("n", N)
+    g = fm.UniformGrid((n + 1,))
+    fixed = np.arange(n) % 3 == 1
+    base = np.arange(n, dtype=float) * 0.25 + 7.0
+    payload = base if pk == "plain" else np.ma.array(base, mask=fixed if pk == "fixedmask" else (np.arange(n) % 4 == 0))
+    root = tempfile.mkdtemp(prefix="vf-c10s-")
+    old = os.getcwd()
+    try:
+        cwd, loc = os.path.join(root, "cwd"), os.path.join(root, case.get("locname", "spill"))
+        os.makedirs(cwd)
+        os.makedirs(loc)
+        os.chdir(cwd)
+        link = hs.Link(
+            fm.Info(time=None, grid=g, units="mm/d", mask=fixed if pk == "fixedmask" else fm.Mask.FLEX),
+            [fm.Info(time=None, grid=g, units=None) for _ in case["pulls"]],
+            chain=[["scale", 1.0]] if case["adapter"] else [],
+            static=True, mem_limit=_limit(lim, n), mem_loc=loc,
+        )
+        link.connect()
+        try:
+            link.out.push_data(payload, None)
+            spilled = any(isinstance(d, str) for _t, d in link.out.data)
+            ctx.nontrivial(spilled and sum(case["pulls"]) > 0)
+            ctx.event("static-spilled" if spilled else "static-in-ram")
+            for rnd in range(max(case["pulls"])):
+                for k, inp in enumerate(link.inputs):
+                    if rnd < case["pulls"][k]:
+                        m = inp.pull_data(None).magnitude
+                        keep = ~np.ma.getmaskarray(m)[0]
+                        if pk != "plain" and not np.array_equal(np.ma.getmaskarray(m)[0], np.ma.getmaskarray(payload)):
+                            ctx.violation("static-mask-differs", f"static/{pk} limit {lim}: pull {rnd} of consumer {k} has another mask than the publication")
+                            return
+                        if not np.array_equal(np.ma.getdata(m)[0][keep], base[keep]):
+                            ctx.violation("static-values-differ", f"static/{pk} limit {lim}: pull {rnd} of consumer {k} differs from the publication")
+                            return
+                if os.listdir("."):
+                    ctx.violation("file-outside-location|static", f"file {os.listdir('.')[0]} created outside the configured location")
+                    return
+        except (fm.FinamDataError, fm.FinamTimeError, fm.FinamNoDataError, NotImplementedError, TypeError, ValueError, OSError) as e:
+            ctx.violation(f"limited-run-fails|static|{pk}|{type(e).__name__}", f"static/{pk} with memory limit {lim} fails: {type(e).__name__}: {str(e)[:200]}")
+            return
+        link.finalize()
+        left = sorted(os.listdir(loc))
+        if left:
+            ctx.violation("files-left-after-finalize|static", f"static/{pk} limit {lim} pulls {case['pulls']}: {len(left)} spill file(s) remain after finalize: {left[:3]}")
+    finally:
+        os.chdir(old)
+        shutil.rmtree(root, ignore_errors=True)
+
+
+def enum_static(tier):
+    i = 0
+    for pk in ("plain", "fixedmask", "flexmask"):
+        for lim in ("0", "b-1", "b", "2b"):
+            for adapter in (False, True):
+                for pulls in ([0], [1], [2], [4], [1, 1], [0, 2], [3, 1, 2]):
+                    i += 1
+                    yield {"payload": pk, "limit": lim, "adapter": adapter, "pulls": pulls, "locname": LOCNAMES[i % len(LOCNAMES)] if i % 3 == 0 else "spill"}
+    for pk in ("plain", "fixedmask"):
+        yield {"payload": pk, "limit": "0", "adapter": False, "pulls": [2, 1], "n": BIG}
+
+
 def parts():
     return [
+        Part("static_enum", check_static, enumerate=enum_static, exhaustive=True),
         Part("product_enum", check, enumerate=enum_cases, exhaustive=True),
         Part("histories", check, strategy=case_st(), budget={"quick": 600, "thorough": 24000}),
         Part("large_payload_enum", check, enumerate=enum_large, exhaustive=True),
